@@ -239,7 +239,27 @@ class BoomBase(BaseException):
     pass
 
 
-EXC_TYPES = {"exc": BoomError, "base": BoomBase, "kbi": KeyboardInterrupt, "exit": SystemExit,
+@__import__("dataclasses").dataclass(frozen=True)
+class FrozenError(Exception):
+    """An exception type that does not allow attribute assignment (a frozen dataclass, as some code bases define)."""
+
+    msg: str
+
+
+class BadStrError(Exception):
+    """An exception whose own __str__/__repr__ fail."""
+
+    def __str__(self):
+        raise RuntimeError("__str__ of the exception fails")
+
+    __repr__ = __str__
+
+
+class SlotsError(Exception):
+    __slots__ = ()
+
+
+EXC_TYPES = {"frozen": FrozenError, "badstr": BadStrError, "slots": SlotsError, "exc": BoomError, "base": BoomBase, "kbi": KeyboardInterrupt, "exit": SystemExit,
              "val": ValueError}
 
 # ---------------------------------------------------------------------------
@@ -259,7 +279,7 @@ class Gen:
     """Incremental spec construction inside one @st.composite draw."""
 
     def __init__(self, draw, registry=False, failures=False, opaque=True, flaky=False,
-                 late=False, xdeps=False, alias=False, lits=1, shared=False, sread=False):
+                 late=False, xdeps=False, alias=False, lits=1, shared=False, sread=False, exotic=False):
         self.draw = draw
         self.nodes = []
         self.registry = registry
@@ -274,6 +294,7 @@ class Gen:
         self.alias = alias
         self.shared = shared
         self.sread = sread
+        self.exotic = exotic  # exotic exception types and callables (C06)
         self.lits = lits  # weight of literal nodes / literal chains in add_any
         self.lit_refs = []
         self.cur_slots = set()
@@ -368,7 +389,8 @@ class Gen:
         if roll < 2:
             return {"t": "ret", "v": d(HASHABLE_CONSTS)}
         if self.failures and roll < 2 + self.failures:
-            exc = d(st.sampled_from(["exc", "exc", "exc", "val", "base", "kbi", "exit"]))
+            exc = d(st.sampled_from(["exc", "exc", "exc", "val", "base", "kbi", "exit"]
+                                    + (["frozen", "badstr", "slots"] if self.exotic else [])))
             return {"t": "raise", "exc": exc, "first": -1}
         if self.flaky and roll >= 17:
             return {"t": "raise", "exc": d(st.sampled_from(["exc", "val"])),
@@ -401,6 +423,8 @@ class Gen:
         beh = self.beh()
         node = {"k": "call", "args": args, "kwargs": kwargs, "deps": self.deps(),
                 "scope": self.scope(), "stored": bool(stored), "beh": beh, "side": side}
+        if self.exotic and d(st.integers(0, 5)) == 0:
+            node["fnkind"] = d(st.sampled_from(["obj", "obj_badrepr", "partial"]))
         self._maybe_late(node)
         if self.sread and self.registry and side is None and d(st.integers(0, 3)) == 0:
             self._add_side_read(node)
@@ -598,8 +622,9 @@ class Gen:
 
 @st.composite
 def plan_specs(draw, max_nodes=8, registry=False, failures=0, opaque=True, flaky=False,
-               min_nodes=1, lits=1, shared=False):
-    g = Gen(draw, registry=registry, failures=failures, opaque=opaque, flaky=flaky, lits=lits, shared=shared)
+               min_nodes=1, lits=1, shared=False, exotic=False):
+    g = Gen(draw, registry=registry, failures=failures, opaque=opaque, flaky=flaky, lits=lits, shared=shared,
+            exotic=exotic)
     n = draw(st.integers(min_nodes, max_nodes))
     while len(g.nodes) < n:
         g.add_any()
